@@ -96,7 +96,7 @@ PLANS = {
     },
     "C01": {
         "level": "proof",
-        "sidecars": ["params", "charges", "driver"],
+        "sidecars": ["params", "charges", "driver", "serialise"],
         "extras": [{"name": "c01_provenance_table", "module": "tables.x_checks", "func": "c01_provenance", "python": "vt"},
                    {"name": "c01_names", "module": "bounded.c01_names", "func": "run", "python": "venv"}],
         "explanation": "lookup = table entry or (None, None); apply_force_field partitions atoms into written/unassigned "
@@ -104,7 +104,7 @@ PLANS = {
     },
     "C02": {
         "level": "proof",
-        "sidecars": ["charges", "driver", "patching", "grouping"],
+        "sidecars": ["charges", "driver", "patching", "grouping", "serialise"],
         "extras": [{"name": "c02_charge_table", "module": "tables.x_checks", "func": "c02_charges", "python": "vt"},
                    {"name": "c02_termini", "module": "bounded.c02_termini", "func": "run", "python": "venv"}],
         "explanation": "state naming, residue charge, integrality guard and per-chain termini proved; force-field data "
@@ -112,7 +112,7 @@ PLANS = {
     },
     "C06": {
         "level": "proof",
-        "sidecars": ["titration", "driver"],
+        "sidecars": ["titration", "driver", "serialise"],
         "extras": [{"name": "c06_support_table", "module": "tables.x_checks", "func": "c06_support", "python": "vt"}],
         "explanation": "apply_pka_values decision table proved equal to the statement for every pH/pKa, every group, "
                        "position and built-in force field, against a support oracle computed from the real pipeline",
